@@ -215,7 +215,8 @@ def build_state(a, st):
     # re-parented at 1.37): the final parent links are the same, and every descendant must have followed its root
     import zlib
     has_children = {r['parent'] for r in rps.values() if r.get('parent')}
-    moved = [u for u in rps if rps[u].get('parent') and u in has_children and zlib.crc32(u.encode()) % 3 == 0]
+    salt = len(rps) + len(st.get('invs', [])) + len(st.get('allocs', []))       # varies from state to state
+    moved = [u for u in rps if rps[u].get('parent') and u in has_children and (zlib.crc32(u.encode()) + salt) % 3 == 0]
     # ... and some ROOTS with grandchildren are first created below another root and un-parented at the end (a moved subtree
     # of depth two: the grandchildren must follow as well)
     def depth_below(u):
@@ -225,7 +226,7 @@ def build_state(a, st):
     lodged = {}
     for u in roots:
         others = [x for x in roots if x != u and x not in lodged]
-        if others and depth_below(u) >= 2 and zlib.crc32(u.encode()) % 2 == 0:
+        if others and depth_below(u) >= 2 and (zlib.crc32(u.encode()) + salt) % 2 == 0:
             lodged[u] = others[0]
     while pending:
         progressed = False
@@ -310,6 +311,24 @@ def same_state(spec, dump):
             and sorted(map(list, spec['allocs'])) == sorted(map(list, dump['allocs']))
             and sorted(map(list, spec['rp_traits'])) == sorted(map(list, dump['rp_traits']))
             and sorted(map(list, spec['rp_aggs'])) == sorted(map(list, dump['rp_aggs'])))
+
+
+def derive_roots(dump):
+    """the root of every provider as its PARENT LINKS give it; -> list of (uuid, stored root, derived root) where the stored
+    root column differs.  The dump is corrected in place: reference results (tree membership, in_tree, anchors) are defined
+    by the tree, not by the denormalised column the service keeps - a stale column then shows as a wrong response."""
+    rps = dump['rps']
+    bad = []
+    for u, r in rps.items():
+        x, seen = u, set()
+        while rps.get(x, {}).get('parent') and x not in seen:
+            seen.add(x)
+            x = rps[x]['parent']
+        if r.get('root') != x:
+            bad.append((u, r.get('root'), x))
+    for u, _old, x in bad:
+        rps[u]['root'] = x
+    return bad
 
 
 def load_model(m, a, dump):
